@@ -235,7 +235,7 @@ func (fr *FamilyRun) Divergences(classes ...string) []core.Failure {
 				kind = "harness-nondeterminism"
 			}
 			fails = append(fails, core.Failure{Key: fr.Spec.Name + ":" + o.Key, Kind: kind, Detail: o.Sig,
-				What: "the compiled program hangs or crashes the worker where the reference does not",
+				What:   "the compiled program hangs or crashes the worker where the reference does not",
 				Replay: map[string]any{"shard": o.Shard, "id": o.ID}})
 			continue
 		}
